@@ -2350,6 +2350,15 @@ sexp sexp_apply (sexp ctx, sexp proc, sexp args) {
     break;
   case SEXP_OP_DONE:
     sexp_context_last_fp(ctx) = fp;
+#if SEXP_USE_GREEN_THREADS
+    if (ctx == root_thread)
+#endif
+    if (top != base + 1)
+      /* not the end of this call to sexp_apply but of another, nested
+         one which has already returned to its C caller - a
+         continuation captured in a procedure called from C was
+         re-entered */
+      sexp_raise("continuation re-entered after the C function that called it returned", SEXP_NULL);
     goto end_loop;
   default:
     sexp_raise("unknown opcode", sexp_list1(ctx, sexp_make_fixnum(*(ip-1))));
@@ -2369,7 +2378,7 @@ sexp sexp_apply (sexp ctx, sexp proc, sexp args) {
     if (sexp_context_refuel(root_thread) <= 0) {
       /* the root already terminated */
       _ARG1 = sexp_context_result(root_thread);
-    } else if (top > 1 && !sexp_exceptionp(_ARG1)) {
+    } else if (top > 1 && !sexp_exceptionp(_ARG1) && sexp_context_saves(ctx)) {
       /* This isn't the end of the thread but of a procedure it was
          running for a C function (a nested sexp_apply) which is below
          the current one on the C stack, so we can't return to it
@@ -2378,6 +2387,9 @@ sexp sexp_apply (sexp ctx, sexp proc, sexp args) {
       fuel = 0;
       goto loop;
     } else {
+      if (top > 1 && !sexp_exceptionp(_ARG1))
+        /* ... but no C function is active for this thread at all */
+        _ARG1 = sexp_user_exception(ctx, self, "continuation re-entered after the C function that called it returned", SEXP_NULL);
       /* don't return from child threads */
       if (sexp_exceptionp(_ARG1)) {
         tmp1 = sexp_current_error_port(ctx);
